@@ -365,6 +365,9 @@ def type_descs(n_models):
         # PintQuantity + PintUnit) make a Union inherently order-dependent on input (pydantic tries members left
         # to right, and typing's generic cache may even reorder them): not a round-trip-able field type.
         out, seen_str = [], False
+        if any(m in ("SIValue", "NumValue") for m in members if isinstance(m, str)) and any(isinstance(m, dict) and m["k"] == "Model" for m in members):
+            # both are objects in serialised form: next to another model the member is ambiguous (same reason)
+            members = [m for m in members if m not in ("SIValue", "NumValue")]
         for m in members:
             strlike = (isinstance(m, str) and m in STRLIKE) or (isinstance(m, dict) and m["k"] == "Enum") or \
                 (isinstance(m, dict) and m["k"] == "Literal" and any(isinstance(v, str) for v in m["v"]))
@@ -385,7 +388,7 @@ def type_descs(n_models):
 def class_descs(max_classes=3, max_fields=4, inheritance=True):
     """Strategy of a 'universe': list of class descriptions, later ones may nest / inherit earlier ones."""
     def one(i):
-        fld = st.tuples(type_descs(i), st.sampled_from(["req", "req", "opt", "opt", "default"]))
+        fld = st.tuples(type_descs(i), st.sampled_from(["req", "req", "opt", "opt", "default", "factory"]))
         return st.fixed_dictionaries(dict(
             fields=st.lists(fld, min_size=1, max_size=max_fields).map(lambda l: [list(x) for x in l]),
             parent=st.one_of(st.none(), st.none(), st.integers(0, i - 1)) if (inheritance and i > 0) else st.none(),
@@ -454,6 +457,11 @@ def build_classes(descs):
                 elif mode == "default" and isinstance(td, dict) and td["k"] in ("List", "Set"):
                     ann[fname] = hint
                     ns[fname] = [] if td["k"] == "List" else set()
+                elif mode == "factory" and isinstance(td, str) and td in DEFAULTS:
+                    # default given by a factory inside Annotated (the style of the example schemas)
+                    ann[fname] = Annotated[hint, Field(default_factory=lambda v=DEFAULTS[td]: v)]
+                elif mode == "factory" and isinstance(td, dict) and td["k"] in ("List", "Set"):
+                    ann[fname] = Annotated[hint, Field(default_factory=list if td["k"] == "List" else set)]
                 else:
                     ann[fname] = hint
             if d.get("alias_id"):
